@@ -63,6 +63,7 @@ Definition gate (g : gcfg) (r : req) : gate_r :=
         | ClBad => GError
         | ClAbsent => after_len
         | ClInt z =>
+          if z <? 0 then GEarly 400 else    (* negative length: 400, the handlers would read until EOF *)
           if negb (z =? 0) && (0 <? max_len g) && (max_len g <? z) then GTooLarge else after_len
         end
       else after_len
